@@ -8,7 +8,7 @@ CONSTANTS
   ScenPos = {0, 1, 2, 3, 4, 5, 6, 7}
   Variants = {"fixed"}
   Interleave = TRUE
-  Emit = FALSE
+  Emit = "none"
 VIEW view
 INVARIANTS TypeOK AcceptOnlyLinked ValidAccepted NoPanic CalledAreArrived FilledWhenAccepted
 PROPERTIES Terminates
